@@ -38,7 +38,7 @@ TARGETS = ('pyglove/core/tuning/local_backend.py', 'pyglove/core/tuning/sample.p
 CRITICAL = ('create_trial', '_complete_trial', 'done', 'skip', 'next', '__init__', 'propose', '_propose', 'feedback',
             '_feedback', '_add_measurement', 'add_measurement', 'next_trial_id', 'get_latest_trial', 'setup', '_setup',
             'next_dna', '_set_active')
-ALGOS = ['sweep', 'random', 'evo', 'dedup']
+ALGOS = ['sweep', 'random', 'evo', 'dedup', 'evokeep']
 ACTIONS = ['done', 'skip', 'multi', 'end', 'abandon']
 
 _COUNTER = [0]
@@ -58,8 +58,10 @@ def make_algo(kind, log):
     return counting(pg.geno.Random)(seed=1)
   if kind == 'dedup':
     return counting(pg.geno.Deduping)(pg.geno.Random(seed=1), max_proposal_attempts=50)
-  if kind == 'evo':
-    algo = pg.evolution.regularized_evolution(pg.evolution.mutators.Uniform(seed=1), population_size=2, tournament_size=2, seed=1)
+  if kind in ('evo', 'evokeep'):
+    # 'evokeep': the population update keeps every reported trial (the population is larger than any run)
+    algo = pg.evolution.regularized_evolution(pg.evolution.mutators.Uniform(seed=1), population_size=2 if kind == 'evo' else 64,
+                                              tournament_size=2, seed=1)
     orig = algo.feedback
 
     def fb(dna, reward):
@@ -350,6 +352,18 @@ def execute(case):
   if algo.num_feedbacks != n_feasible:
     return res.violate('the algorithm counts %d feedbacks, %d feasible trials completed; %s' % (algo.num_feedbacks, n_feasible, ctx),
                        law='feedback-counter', **sig)
+  if case['algo'] in ('evo', 'evokeep'):
+    # what the algorithm was told is what it holds: with the keep-all update every reported trial exactly once,
+    # with the size-2 update the right number of reported trials
+    pop_ids = sorted(id(d) for d in algo.population)
+    fed_ids = sorted(k for k, c in fb_count.items() if c)
+    if case['algo'] == 'evokeep' and pop_ids != fed_ids:
+      return res.violate('the population holds %d DNAs (%d of them reported trials), %d trials were reported; %s' % (
+          len(pop_ids), len(set(pop_ids) & set(fed_ids)), len(fed_ids), ctx), law='population', **sig)
+    if case['algo'] == 'evo' and (len(pop_ids) != min(2, len(fed_ids)) or len(set(pop_ids)) != len(pop_ids)
+                                  or not set(pop_ids) <= set(fed_ids)):
+      return res.violate('the population holds %d DNAs (%d of them reported trials), %d trials were reported; %s' % (
+          len(pop_ids), len(set(pop_ids) & set(fed_ids)), len(fed_ids), ctx), law='population', **sig)
   if case['algo'] == 'sweep':
     dnas = [tuple(t.dna.to_numbers()) for t in trials]
     if len(set(dnas)) != len(dnas):
@@ -386,7 +400,7 @@ def execute(case):
 # exhaustive sub-domains: every placement of one preemption (and of two, thorough) in fixed programs
 
 EXHAUSTIVE_DOMAINS = {
-    'one_preemption': '6 fixed programs (2 workers: separate groups / shared group with done+skip in both orders; sweep, evo, random; N=2..3) x every '
+    'one_preemption': '7 fixed programs (2 workers: separate groups / shared group with done+skip in both orders; sweep, evo, evokeep, random; N=2..3) x every '
                       'single preemption point 1..S (S = steps of the run-to-completion schedule + margin)',
     'two_preemptions': 'thorough only: the separate-groups sweep program x every pair of preemption points (stride 3)',
 }
@@ -399,6 +413,8 @@ PROGRAMS = [
     # co-workers racing with different verdicts on the same trial, the skipping one first
     {'algo': 'sweep', 'N': 2, 'sign': 1, 'workers': [{'group': 0, 'actions': ['skip']}, {'group': 0, 'actions': ['done']}]},
     {'algo': 'random', 'N': 3, 'sign': -1, 'workers': [{'group': None, 'actions': ['done']}, {'group': None, 'actions': ['done']}]},
+    # two reports to an evolution whose population keeps everything it is told
+    {'algo': 'evokeep', 'N': 3, 'sign': 1, 'workers': [{'group': None, 'actions': ['done']}, {'group': None, 'actions': ['done']}]},
 ]
 
 
